@@ -49,7 +49,7 @@ M = {
  'R4': (LPW, "        if ( result == 0 || result == 1 )", "        if ( result == 0 || result == 1 || result == ACCURACYERROR )",
         'LP::solve accepts ACCURACYERROR (the repair that was applied and reverted)'),
  'R5': (LPW, "            set_pivoting(lp, PRICER_FIRSTINDEX);\n            default_basis(lp);", "            set_pivoting(lp, PRICER_FIRSTINDEX);\n            set_scaling(lp, SCALE_GEOMETRIC + SCALE_DYNUPDATE);\n            default_basis(lp);",
-        'LP::solve changes the scaling mode for the second attempt (lp_solve then reports wrong optima with result 0)'),
+        'LP::solve changes the scaling mode for the second attempt without unscale (lp_solve then reports wrong optima with result 0); only reached when a retry happens: apply fixes/C15-5 first for a failing input'),
  'R6': (FC, "        std::transform(std::begin(rhs), std::end(rhs), std::back_inserter(retval), [S](const size_t a){ return a + S; });",
             "        std::transform(std::begin(rhs), std::end(rhs), std::back_inserter(retval), [S, &lhs](const size_t a){ return a + (lhs.size() > 2 ? lhs.size() : S); });",
         'join(S, tag, actionTag) offsets the action keys by |tag| instead of |S| for state tags of three keys'),
